@@ -343,6 +343,8 @@ class SimTarget:
                     a = list(args)
                     if len(a) > 1:
                         a[1] = tuple(a[1]) if hint else list(a[1])
+                    if a and isinstance(a[0], int) and 0 <= a[0] < len(live_c18.RLIMIT_ABI):
+                        a[0] = getattr(ps, "RLIMIT_" + live_c18.RLIMIT_ABI[a[0]], a[0])    # as a caller names it
                     v = p.rlimit(*a)
                 out.append(("ok", v))
             except Exception as ex:  # noqa: BLE001
